@@ -38,7 +38,8 @@ type admCase struct {
 	Kv     int             `json:"kv"`
 	Max    int             `json:"max"`
 	Init   int             `json:"init"`
-	Script [][]interface{} `json:"script"` // [kind, arg, place]
+	Pre    string          `json:"pre"`    // "cached" | "empty" | "none"
+	Script [][]interface{} `json:"script"` // [kind, arg, place, k]: k metadata answers without controller after this step-down
 	Pred   struct {
 		Att  int    `json:"att"`
 		Cls  string `json:"cls"`
@@ -82,16 +83,17 @@ func (admDropConn) headerVersion() int16          { return 0 }
 
 // admCluster: three scripted MockBrokers and the state of the case being run on them.
 type admCluster struct {
-	mu      sync.Mutex
-	rep     *admReporter
-	brokers map[int32]*MockBroker
-	c       *admCase
-	ctl     int32 // true controller
-	k       int   // admin requests of the current operation seen so far
-	own     map[int]int32
-	itemv   map[int]int
-	bfault  map[int32]string
-	events  []admEvent
+	mu       sync.Mutex
+	rep      *admReporter
+	brokers  map[int32]*MockBroker
+	c        *admCase
+	ctl      int32 // true controller
+	k        int   // admin requests of the current operation seen so far
+	noneLeft int   // metadata answers still to come that name no controller
+	own      map[int]int32
+	itemv    map[int]int
+	bfault   map[int32]string
+	events   []admEvent
 }
 
 // admDialer is sarama's default dialer plus SO_LINGER 0: the tens of thousands of short-lived
@@ -177,7 +179,12 @@ func (cl *admCluster) handle(me int32, req *request) encoderWithHeader {
 	api := reflect.TypeOf(req.body).Elem().Name()
 	switch r := req.body.(type) {
 	case *MetadataRequest:
-		res := &MetadataResponse{Version: r.Version, ControllerID: cl.ctl}
+		named := cl.ctl
+		if cl.noneLeft > 0 { // election in progress: this answer names no controller
+			cl.noneLeft--
+			named = -1
+		}
+		res := &MetadataResponse{Version: r.Version, ControllerID: named}
 		for id := int32(0); id < 3; id++ {
 			res.AddBroker(cl.brokers[id].Addr(), id)
 		}
@@ -188,7 +195,7 @@ func (cl *admCluster) handle(me int32, req *request) encoderWithHeader {
 			}
 			res.AddTopicPartition(admTopic, int32(p), leader, []int32{leader}, []int32{leader}, []int32{}, ErrNoError)
 		}
-		cl.ev("meta", kv{"b": int(me), "ctl": int(cl.ctl)})
+		cl.ev("meta", kv{"b": int(me), "ctl": int(cl.ctl), "named": int(named)})
 		return res
 	case *FindCoordinatorRequest:
 		owner, known := cl.own[admGroupIndex(r.CoordinatorKey)]
@@ -208,10 +215,13 @@ func (cl *admCluster) handle(me int32, req *request) encoderWithHeader {
 
 func (cl *admCluster) handleCtl(me int32, api string, req *request) encoderWithHeader {
 	cl.k++
-	kind, arg, place := "ack", 0, "-" // beyond the script: the controller acknowledges
+	kind, arg, place, none := "ack", 0, "-", 0 // beyond the script: the controller acknowledges
 	if cl.k <= len(cl.c.Script) {
 		s := cl.c.Script[cl.k-1]
 		kind, arg, place = s[0].(string), int(s[1].(float64)), s[2].(string)
+		if len(s) > 3 {
+			none = int(s[3].(float64))
+		}
 	}
 	before := cl.ctl
 	code := 0
@@ -221,7 +231,10 @@ func (cl *admCluster) handleCtl(me int32, api string, req *request) encoderWithH
 	} else {
 		switch kind {
 		case "nc":
-			cl.ctl = int32(arg) // the controller steps down, broker arg takes over
+			cl.ctl = int32(arg) // the controller steps down, broker arg takes over ...
+			if none > 0 {
+				cl.noneLeft = none // ... after an election: the next metadata answers name nobody
+			}
 			code = int(ErrNotController)
 		case "err":
 			code = arg
@@ -372,6 +385,8 @@ func admClassify(err error) (string, int, string) {
 	var ra ErrReassignPartitions
 	var rd ErrDeleteRecords
 	switch {
+	case errors.Is(err, ErrControllerNotAvailable):
+		return "nocontroller", 0, text
 	case errors.Is(err, ErrIncompleteResponse):
 		return "incomplete", 0, text
 	case errors.As(err, &te) && te != nil:
@@ -447,7 +462,7 @@ func (cl *admCluster) runCase(c *admCase, idx int) (kv, []admEvent, bool) {
 		if script == nil {
 			script = [][]interface{}{}
 		}
-		reset = kv{"fam": "ctl", "src": c.Src, "op": c.Op, "kv": c.Kv, "max": c.Max, "init": c.Init, "script": script,
+		reset = kv{"fam": "ctl", "src": c.Src, "op": c.Op, "kv": c.Kv, "max": c.Max, "init": c.Init, "pre": c.Pre, "script": script,
 			"pred_att": c.Pred.Att, "pred_cls": c.Pred.Cls, "pred_code": c.Pred.Code}
 	} else {
 		bf := [][]interface{}{}
@@ -482,9 +497,30 @@ func (cl *admCluster) runCase(c *admCase, idx int) (kv, []admEvent, bool) {
 	envTrouble := ""
 	for try := 0; try < 4; try++ {
 		setup = admGuard(func() (error, []int) {
-			a, err := NewClusterAdmin([]string{seed}, conf)
+			cl.mu.Lock()
+			cl.noneLeft = 0
+			cl.mu.Unlock()
+			client, err := NewClient([]string{seed}, conf)
+			if err != nil {
+				return err, nil
+			}
+			a, err := NewClusterAdminFromClient(client)
+			if err != nil {
+				_ = client.Close()
+				return err, nil
+			}
 			admin = a
-			return err, nil
+			if c.Fam == "ctl" && (c.Pre == "empty" || c.Pre == "none") {
+				// a metadata refresh during a controller election (what the background updater
+				// does) wipes the cached controller before the operation starts
+				cl.mu.Lock()
+				cl.noneLeft = 1
+				cl.mu.Unlock()
+				if err := client.RefreshMetadata(); err != nil {
+					return fmt.Errorf("harness: wiping refresh failed: %v", err), nil
+				}
+			}
+			return nil, nil
 		})
 		if setup.status == "" && setup.err == nil {
 			break
@@ -511,6 +547,10 @@ func (cl *admCluster) runCase(c *admCase, idx int) (kv, []admEvent, bool) {
 		cl.mu.Lock()
 		cl.events = nil // requests of the client bootstrap are not part of the operation
 		cl.k = 0
+		cl.noneLeft = 0
+		if c.Fam == "ctl" && c.Pre == "none" {
+			cl.noneLeft = 1 // the election is still going on when the operation looks the controller up
+		}
 		cl.mu.Unlock()
 		out = admGuard(func() (error, []int) { return admInvoke(admin, c) })
 		if out.status == "hang" {
